@@ -16,7 +16,8 @@ import mmlib
 import strictpy
 from r_conv import dump, fl
 
-conv = converters.get_converter()
+import conv_cfg
+conv = conv_cfg.make_converter()
 I32 = (-2**31, 2**31 - 1)
 
 
